@@ -18,7 +18,7 @@ DECIDING = ["abort_points", "line_events"]
 MIN_DECIDED_RATIO = 0.8
 RULE = (
     "for generated groups of 1-4 members and files of 2-8 lines: every (member, line) abort point x fault kind {argument rejected, "
-    "exception inside the function} x the six run methods, each followed by one normal run on the same instance. Non-trivial: every case "
+    "exception inside the function, failure reported as a chained exception} x the six run methods, each followed by one normal run on the same instance. Non-trivial: every case "
     "(an abort happens in each); distinct = distinct (group size, member index, line, kind, method, member skeletons)."
 )
 ASSUMPTIONS = [
@@ -29,8 +29,11 @@ ASSUMPTIONS = [
 FAULT_COMP = {
     "argtype": ["fn", "gt", [["fn", "add", [["hdr", "4"], ["int", 1]], []], ["int", -1]], []],
     "pyexc": ["fn", "gt", [["fn", "mod", [["int", 7], ["hdr", "4"]], []], ["int", -1]], []],
+    # a failure the function reports with its cause attached (raise ... from ...): a chained exception
+    "chained": ["fn", "date", [["hdr", "5"], ["str", "%Y-%m-%d"]], []],
 }
-FAULT_CELL = {"argtype": "zz", "pyexc": "0"}
+FAULT_CELL = {"argtype": "zz", "pyexc": "0", "chained": "not-a-date"}
+FAULT_COL = {"argtype": 4, "pyexc": 4, "chained": 5}
 
 
 def plan(tier, seed):
@@ -39,9 +42,9 @@ def plan(tier, seed):
 
 
 def clean_rows(r, n):
-    rows = [["a", "b", "c", "d", "9"]]  # (the header cell of the fault column is numeric so a [*] scan does not fault on line 0)
+    rows = [["a", "b", "c", "d", "9", "2024-01-01"]]  # (the header cells of the fault columns are well-formed so a [*] scan does not fault on line 0)
     for i in range(n - 1):
-        rows.append([r.choice(["1", "2", "5", "10", "11"]), r.choice(["0", "3", "9", "12"]), r.choice(["abc", "x", "Q", "zz"]), r.choice(["q", "abc", "X"]), "3"])
+        rows.append([r.choice(["1", "2", "5", "10", "11"]), r.choice(["0", "3", "9", "12"]), r.choice(["abc", "x", "Q", "zz"]), r.choice(["q", "abc", "X"]), "3", f"2024-0{r.randint(1, 9)}-1{r.randint(0, 9)}"])
     return rows
 
 
@@ -69,7 +72,7 @@ def check_abort(case, agg):
     members, rows_clean, i, line, kind, method = case["members"], case["rows"], case["member"], case["line"], case["kind"], case["method"]
     n = len(members)
     rows = [list(r_) for r_ in rows_clean]
-    rows[line][4] = FAULT_CELL[kind]
+    rows[line][FAULT_COL[kind]] = FAULT_CELL[kind]
     progs = [dict(p) for p in members]
     fm = dict(progs[i])
     comps = list(fm["comps"])
@@ -211,7 +214,7 @@ def cases_for_group(seed, shard, gi, methods):
     k = 0
     for i in range(n):
         for line in range(0, nlines):
-            for kind in ("argtype", "pyexc"):
+            for kind in ("argtype", "pyexc", "chained"):
                 method = methods[k % len(methods)]
                 k += 1
                 yield {"members": members, "rows": rows, "member": i, "line": line, "kind": kind, "method": method, "pos": r.randint(0, 3), "follow": k}
@@ -251,4 +254,4 @@ def replay(case, agg):
 
 
 def finish(m, tier):
-    return {"exhaustive": True, "exhaustive_scope": "every (member, line) abort point x both fault kinds of each generated group; the run method rotates over the six methods across abort points"}
+    return {"exhaustive": True, "exhaustive_scope": "every (member, line) abort point x the three fault kinds of each generated group; the run method rotates over the six methods across abort points"}
